@@ -8,7 +8,18 @@ counterexamples of the unchanged tree (`Cfg.orig`).  Helper lemmas are in
 -/
 import ElvProofs.C42.Route
 import ElvProofs.C42.NoPanic
+import ElvProofs.C42.Chan
+import ElvProofs.C42.Close
 open Go C42
+
+/-- The frame a top-level form starts with: ports 0, 1, 2 on three open files. -/
+def C42_st0 : St :=
+  ⟨[some ⟨0, some 0, .closed, false, false, false⟩, some ⟨1, some 1, .live 1, false, false, false⟩,
+    some ⟨2, some 2, .live 2, false, false, false⟩], [],
+   ⟨[("in", .file []), ("out", .file []), ("err", .file [])],
+    [⟨"in", 0, true, false, false, true⟩, ⟨"out", 0, false, true, true, true⟩, ⟨"err", 0, false, true, true, true⟩],
+    [], []⟩, 3⟩
+
 
 /-! ## 1. The port table is the specification's table -/
 
@@ -52,29 +63,104 @@ theorem C42_every_src_fd_port_or_exception (st : St) (d : Nat) (mode : Mode) (v 
     ∀ n, evalForFd Cfg.fixed v true = .ok n → (0 ≤ n ∧ n ≤ maxRedirFD) ∨ n = -1 :=
   ⟨installSrc_noPanic_fixed _ _ _ _, fun _ h => (evalForFd_fixed_range h).imp id And.left⟩
 
+/-- `pid` is the identity of a `*Port`: the allocator's counter is above every
+port of the table (a port made by `&Port{…}` is a pointer that did not exist),
+and two entries with the same pid are the same port.  Every frame the real
+code can build satisfies this. -/
+def C42_PidsWF (st : St) : Prop :=
+  (∀ (i : Nat) (p : Port), lookup st.ports i = some p → p.pid < st.nextPid) ∧
+  (∀ (i j : Nat) (p q : Port), lookup st.ports i = some p → lookup st.ports j = some q → p.pid = q.pid → p = q)
+
 /-- Full panic-freedom of the redirection loop; the well-formedness asked of
 the frame concerns only the value channels the form owns (a form followed by
-another form of its pipeline owns the channel of its output pipe). -/
+another form of its pipeline owns the channel of its output pipe): an owned
+channel is live and not closed, no channel is owned twice, and pids are
+pointer identities. -/
 def C42_ChanWF (st : St) : Prop :=
   (∀ (i : Nat) (f : Fop), st.fops[i]? = some f → f.chan = true →
     ∃ p id, lookup st.ports i = some p ∧ p.chan = .live id ∧ id ∉ st.w.closedChans) ∧
   (∀ (i j : Nat) (fi fj : Fop) (pi pj : Port), i ≠ j → st.fops[i]? = some fi → fi.chan = true →
     st.fops[j]? = some fj → fj.chan = true → lookup st.ports i = some pi → lookup st.ports j = some pj →
     pi.chan ≠ pj.chan) ∧
-  (∀ (i j : Nat) (p q : Port), lookup st.ports i = some p → lookup st.ports j = some q → p.pid = q.pid → p = q)
+  C42_PidsWF st
 
 def C42_no_panic_full : Prop :=
   ∀ (st : St) (rs : List Redir), C42_ChanWF st → ∃ s, execRedirs Cfg.fixed st rs = .ok s
 
-/-- Proved part of `C42_no_panic_full`: forms that own no value channel
-(every form that is the last of its pipeline, in particular every stand-alone
-form).  Whatever the fd values and however many redirections, the loop
-returns — with the table or with an exception — and never panics.
-GAP: a form that owns the channel of its output pipe (`close(p.Chan)` must
-not be reached twice); covered by the correspondence contexts `o` and `io`. -/
-theorem C42_no_panic_partial (st : St) (rs : List Redir) (h : ∀ (i : Nat) (f : Fop), st.fops[i]? = some f → f.chan = false) :
+/-- Whatever the fd values, however many redirections, and in every position
+of a pipeline: the redirection loop of the fixed code returns — with the table
+or with an exception — and never panics.  In particular `close(p.Chan)` of the
+channel of the form's output pipe is never reached twice: when the port is
+redirected away the channel is closed once (or handed over to the entry that
+still uses the port), and the ownership invariant (`ChanInv`: owned channels
+are live, not closed, and owned by one entry) holds again after every
+redirection. -/
+theorem C42_no_panic : C42_no_panic_full := by
+  intro st rs ⟨h1, h2, hlt, hinj⟩
+  have hp : PidInv st := ⟨hlt, hinj⟩
+  have hc : ChanInv st := by
+    constructor
+    · intro i hi
+      exact h1 i _ (getElem?_of_fopAt_lt (fopAt_lt_of_chan hi)) hi
+    · intro i j p q hij hi hj hpi hpj
+      exact h2 i j _ _ p q hij (getElem?_of_fopAt_lt (fopAt_lt_of_chan hi)) hi
+        (getElem?_of_fopAt_lt (fopAt_lt_of_chan hj)) hj hpi hpj
+  obtain ⟨s, hs, _⟩ := execRedirs_chanInv rs st hp hc
+  exact ⟨s, hs⟩
+
+/-- … and the invariant the proof carries: after the loop every channel the
+form still owns is live and has not been closed, and no two entries own the
+same channel — so the stage end closes each of them exactly once. -/
+theorem C42_owned_channels_after_redirs (st : St) (rs : List Redir) (h : C42_ChanWF st) :
+    ∃ s, execRedirs Cfg.fixed st rs = .ok s ∧ C42_ChanWF s.st := by
+  obtain ⟨h1, h2, hlt, hinj⟩ := h
+  have hp : PidInv st := ⟨hlt, hinj⟩
+  have hc : ChanInv st := by
+    constructor
+    · intro i hi
+      exact h1 i _ (getElem?_of_fopAt_lt (fopAt_lt_of_chan hi)) hi
+    · intro i j p q hij hi hj hpi hpj
+      exact h2 i j _ _ p q hij (getElem?_of_fopAt_lt (fopAt_lt_of_chan hi)) hi
+        (getElem?_of_fopAt_lt (fopAt_lt_of_chan hj)) hj hpi hpj
+  obtain ⟨s, hs, hp', hc'⟩ := execRedirs_chanInv rs st hp hc
+  refine ⟨s, hs, ?_, ?_, hp'.lt, hp'.inj⟩
+  · intro i f hf hch
+    exact hc'.owner i (by rw [fopAt_of_getElem? hf]; exact hch)
+  · intro i j fi fj pi pj hij hfi hci hfj hcj hpi hpj
+    exact hc'.uniq i j pi pj hij (by rw [fopAt_of_getElem? hfi]; exact hci)
+      (by rw [fopAt_of_getElem? hfj]; exact hcj) hpi hpj
+
+/-- A form that owns no value channel (every form that is the last of its
+pipeline, in particular every stand-alone form) needs no hypothesis at all, not
+even on the pids: the loop returns whatever the frame is. -/
+theorem C42_no_panic_without_owned_channel (st : St) (rs : List Redir)
+    (h : ∀ (i : Nat) (f : Fop), st.fops[i]? = some f → f.chan = false) :
     ∃ s, execRedirs Cfg.fixed st rs = .ok s :=
   (execRedirs_fixed_ok rs st h).imp fun _ h => h.1
+
+/-- The frame of a form followed by another form (`form | …`): port 1 is the
+output pipe, whose file and channel the form owns. -/
+def C42_stPipeOut (nextPid : Nat) : St :=
+  ⟨[some ⟨0, some 0, .closed, false, false, false⟩, some ⟨4, some 3, .live 4, false, true, false⟩,
+    some ⟨2, some 2, .live 2, false, false, false⟩], [Fop.unowned, ⟨true, true⟩],
+   ⟨[("in", .file []), ("err", .file []), ("|dn", .file [])],
+    [⟨"in", 0, true, false, false, true⟩, ⟨"out", 0, false, true, true, true⟩, ⟨"err", 0, false, true, true, true⟩,
+     ⟨"|dn", 0, false, true, true, true⟩], [], []⟩, nextPid⟩
+
+/-- `3>a >b 3>c` in front of a pipe. -/
+def C42_overridePipeOut : List Redir :=
+  [⟨some (.int 3), .write, .name "a"⟩, ⟨none, .write, .name "b"⟩, ⟨some (.int 3), .write, .name "c"⟩]
+
+/-- The hypothesis that pids are pointer identities is needed (it was missing
+from the first statement of `C42_ChanWF`): in a model state whose allocator
+hands out the pid of the pipe port again, `3>a >b 3>c` hands the channel over
+to the port of `a` and closes a nil channel.  No frame of the real code is
+like that (`&Port{…}` is a new pointer); with a fresh counter the same
+redirections close the pipe's channel once. -/
+theorem C42_no_panic_needs_pid_identity :
+    execRedirs Cfg.fixed (C42_stPipeOut 4) C42_overridePipeOut = .panic "close of nil channel" ∧
+    ∃ s, execRedirs Cfg.fixed (C42_stPipeOut 5) C42_overridePipeOut = .ok s ∧ s.exc = none ∧
+      s.st.w.closedChans = [4] := ⟨rfl, _, rfl, rfl, rfl⟩
 
 /-! ## 3. Value output to a file-redirected or closed port -/
 
@@ -156,31 +242,90 @@ theorem C42_bytes_routed_by_mode {st st' : St} {dstv : Option FdVal} {mode : Mod
 /-- FULL statement about closing, for a form alone in its pipeline: when the
 form has finished, every file opened by one of its redirections is closed,
 and every file that existed before (inherited ports, file objects, pipes
-given as maps) has kept its open state.  File objects and maps refer to files
-that existed before the form. -/
-def C42_foreignSources (st : St) (rs : List Redir) : Prop :=
-  ∀ r ∈ rs, match r.src with
-    | .fileObj h => h < st.w.hs.length
-    | .map a b => (∀ h, a = some h → h < st.w.hs.length) ∧ (∀ h, b = some h → h < st.w.hs.length)
-    | _ => True
-
+given as maps) has kept its open state.  The only thing asked of the frame is
+that pids are pointer identities (`C42_PidsWF`).
+(Round 1 stated this with `PortsInRange` and `C42_foreignSources` instead;
+neither is needed, but without `C42_PidsWF` the statement is false:
+`C42_files_closed_needs_pid_identity`.) -/
 def C42_files_closed_full : Prop :=
   ∀ (st : St) (rs : List Redir) (as : List Action) (o : FormOut),
-    st.fops = [] → PortsInRange st → C42_foreignSources st rs →
+    st.fops = [] → C42_PidsWF st →
     runForm Cfg.fixed st none rs as = .ok o →
     (∀ (h : Nat) (hd : Handle), st.w.hs.length ≤ h → o.st.w.hs[h]? = some hd → hd.isOpen = false) ∧
     (∀ (h : Nat) (hd : Handle), st.w.hs[h]? = some hd → ∃ hd', o.st.w.hs[h]? = some hd' ∧ hd'.isOpen = hd.isOpen)
 
+/-- The same for a form in ANY position of a pipeline (it then starts with
+owned entries: its input pipe, the file and channel of its output pipe): when
+it has finished — normally, with a redirection that failed half-way, or with
+actions that failed — every file it owned at the start and every file one of
+its redirections opened is closed, and every other file has kept its open
+state: nothing the form does not own is closed, nothing it owns leaks. -/
+theorem C42_form_closes_exactly_what_it_owns (st : St) (inPipe : Option Port) (rs : List Redir)
+    (as : List Action) (o : FormOut) (hp : C42_PidsWF st)
+    (hflag : ∀ i, (fopAt st.fops i).file = true → ∃ p, lookup st.ports i = some p)
+    (h : runForm Cfg.fixed st inPipe rs as = .ok o) :
+    (∀ (h : Nat) (hd : Handle),
+      ((∃ i p, (fopAt st.fops i).file = true ∧ lookup st.ports i = some p ∧ p.file = some h) ∨ st.w.hs.length ≤ h) →
+      o.st.w.hs[h]? = some hd → hd.isOpen = false) ∧
+    (∀ (h : Nat) (hd : Handle),
+      ¬ (∃ i p, (fopAt st.fops i).file = true ∧ lookup st.ports i = some p ∧ p.file = some h) →
+      st.w.hs[h]? = some hd → ∃ hd', o.st.w.hs[h]? = some hd' ∧ hd'.isOpen = hd.isOpen) := by
+  have hinv : FileInv (fun h => (∃ i p, (fopAt st.fops i).file = true ∧ lookup st.ports i = some p ∧ p.file = some h) ∨
+      st.w.hs.length ≤ h) st := by
+    refine ⟨fun h hh => Or.inr hh, ?_, ?_⟩
+    · intro i hi
+      obtain ⟨p, hl⟩ := hflag i hi
+      exact ⟨p, hl, fun h hf => Or.inl ⟨i, p, hi, hl, hf⟩⟩
+    · intro h hd hT hh _
+      rcases hT with hT | hT
+      · exact hT
+      · rw [List.getElem?_eq_none_iff.mpr hT] at hh; cases hh
+  obtain ⟨hA, hB⟩ := runForm_files h ⟨hp.1, hp.2⟩ hinv
+  refine ⟨fun h hd hT hh => hA h hd hT hh, fun h hd hno hh => ?_⟩
+  have hlt : h < st.w.hs.length := (List.getElem?_eq_some_iff.mp hh).1
+  have := hB h (by rintro (x | x); exact hno x; omega)
+  rw [hh] at this
+  cases hx : o.st.w.hs[h]? with
+  | none => rw [hx] at this; cases this
+  | some x =>
+    rw [hx] at this
+    simp only [Option.map_some, Option.some.injEq] at this
+    exact ⟨x, rfl, this⟩
+
+theorem C42_files_closed : C42_files_closed_full := by
+  intro st rs as o hfops hp h
+  have hnone : ∀ hh, ¬ (∃ i p, (fopAt st.fops i).file = true ∧ lookup st.ports i = some p ∧ p.file = some hh) := by
+    rintro hh ⟨i, p, hi, _⟩
+    rw [hfops, fopAt_nil] at hi; cases hi
+  obtain ⟨hA, hB⟩ := C42_form_closes_exactly_what_it_owns st none rs as o hp
+    (by intro i hi; rw [hfops, fopAt_nil] at hi; cases hi) h
+  exact ⟨fun h hd hge hh => hA h hd (Or.inr hge) hh, fun h hd hh => hB h hd (hnone h) hh⟩
+
+/-- A model state in which the allocator hands out a pid that is already in
+the table (port 5, on the foreign file 0, has the pid the next port will get). -/
+def C42_stStalePid : St :=
+  { C42_st0 with ports := C42_st0.ports ++ [none, none, some ⟨3, some 0, .closed, false, false, false⟩] }
+
+/-- `C42_PidsWF` is needed in `C42_files_closed_full` (round 1 stated it
+without): in `C42_stStalePid`, `>a >b` hands the ownership of `a` over to port
+5, so the form closes the foreign file 0 and leaves `a` (file 3) open.  The
+state satisfies what round 1 asked (`PortsInRange`, nothing owned); no frame
+of the real code is like that. -/
+theorem C42_files_closed_needs_pid_identity :
+    C42_stStalePid.fops = [] ∧ PortsInRange C42_stStalePid ∧
+    ∃ o, runForm Cfg.fixed C42_stStalePid none [⟨none, .write, .name "a"⟩, ⟨none, .write, .name "b"⟩] [] = .ok o ∧
+      o.st.w.hs.map (·.isOpen) = [false, true, true, true, false] := by
+  refine ⟨rfl, ?_, _, rfl, rfl⟩
+  intro j q h hl hf
+  have hj := lookup_lt hl
+  have : j = 0 ∨ j = 1 ∨ j = 2 ∨ j = 3 ∨ j = 4 ∨ j = 5 := by
+    simp [C42_stStalePid, C42_st0] at hj; omega
+  rcases this with rfl | rfl | rfl | rfl | rfl | rfl <;>
+    (simp [lookup, C42_stStalePid, C42_st0] at hl) <;>
+    (subst hl; simp at hf; subst hf; simp [C42_stStalePid, C42_st0])
+
 /-! ## 6. The unchanged tree (`Cfg.orig`) violates the property -/
 
-
-/-- The frame a top-level form starts with: ports 0, 1, 2 on three open files. -/
-def C42_st0 : St :=
-  ⟨[some ⟨0, some 0, .closed, false, false⟩, some ⟨1, some 1, .live 1, false, false⟩,
-    some ⟨2, some 2, .live 2, false, false⟩], [],
-   ⟨[("in", .file []), ("out", .file []), ("err", .file [])],
-    [⟨"in", 0, true, false, false, true⟩, ⟨"out", 0, false, true, true, true⟩, ⟨"err", 0, false, true, true, true⟩],
-    [], []⟩, 3⟩
 
 theorem C42_counterexample_negative_dst :
     execRedir Cfg.orig C42_st0 ⟨some (.int (-1)), .write, .name "f"⟩ = .panic "index out of range" := by
@@ -228,8 +373,8 @@ theorem C42_counterexample_value_output_input_port :
 
 /-- The frame of a form whose input is a pipe (`a | form`): port 0 is the pipe, owned by the form. -/
 def C42_stPipeIn : St × Port :=
-  let p : Port := ⟨3, some 3, .live 3, false, true⟩
-  (⟨[some p, some ⟨1, some 1, .live 1, false, false⟩, some ⟨2, some 2, .live 2, false, false⟩], [⟨true, false⟩],
+  let p : Port := ⟨3, some 3, .live 3, false, true, true⟩
+  (⟨[some p, some ⟨1, some 1, .live 1, false, false, false⟩, some ⟨2, some 2, .live 2, false, false, false⟩], [⟨true, false⟩],
     ⟨[("in", .file [65]), ("out", .file []), ("err", .file []), ("|up", .file [])],
      [⟨"in", 0, true, false, false, true⟩, ⟨"out", 0, false, true, true, true⟩, ⟨"err", 0, false, true, true, true⟩,
       ⟨"|up", 0, true, false, false, true⟩], [], []⟩, 4⟩, p)
@@ -272,10 +417,73 @@ theorem C42_fixed_dup_then_override_closes :
       o.st.w.hs.map (·.isOpen) = [true, true, true, false, false] :=
   ⟨_, rfl, rfl, rfl, rfl⟩
 
+/-- `put x >&0` in `a | form` (the case C17 found: `nop | { sleep 0.05; put x >&0 }` panicked
+with `send on closed channel`): with the reading end of a pipe as port 1, value output raises
+"port does not support value output" whatever the state of the channel. -/
+theorem C42_value_output_pipe_read_end (st : St) (p : Port) (v : Bytes)
+    (hp : st.ports[1]? = some (some p)) (hr : p.pipeReadEnd = true) :
+    valueOutput Cfg.fixed st v = .ok (st, some eNoValueOutput) :=
+  valueOutput_readEnd v hp hr
+
+example : ∃ st', runAction Cfg.fixed C42_stPipeIn.1 (.put (some 0) [120]) = .ok (st', "no-value-output") := ⟨_, rfl⟩
+/-- without that repair the value is sent into the pipe's channel, which the writing side closes -/
+example : ∃ st', runAction Cfg.orig C42_stPipeIn.1 (.put (some 0) [120]) = .ok (st', "ok") ∧
+    st'.w.sent = [(3, [120])] := ⟨_, rfl, rfl⟩
+
 -- non-vacuity of the hypotheses of the general theorems
 example : ∃ s, execRedirs Cfg.fixed C42_st0 C42_dupThenOverride = .ok s ∧ s.exc = none := ⟨_, rfl, rfl⟩
 example : ∀ (i : Nat) (f : Fop), C42_st0.fops[i]? = some f → f.chan = false := by
   intro i f h; simp [C42_st0] at h
+
+/-- pids of a three-port table, by enumeration -/
+theorem C42_pidsWF_of_three {p0 p1 p2 : Port} {fops : List Fop} {w : World} {n : Nat}
+    (h0 : p0.pid < n) (h1 : p1.pid < n) (h2 : p2.pid < n)
+    (h01 : p0.pid ≠ p1.pid) (h02 : p0.pid ≠ p2.pid) (h12 : p1.pid ≠ p2.pid) :
+    C42_PidsWF ⟨[some p0, some p1, some p2], fops, w, n⟩ := by
+  have hcases : ∀ (i : Nat) (p : Port), lookup [some p0, some p1, some p2] i = some p →
+      (i = 0 ∧ p = p0) ∨ (i = 1 ∧ p = p1) ∨ (i = 2 ∧ p = p2) := by
+    intro i p hl
+    have hi := lookup_lt hl
+    have : i = 0 ∨ i = 1 ∨ i = 2 := by simp at hi; omega
+    rcases this with rfl | rfl | rfl <;> simp [lookup] at hl <;> simp [hl]
+  constructor
+  · intro i p hl
+    rcases hcases i p hl with ⟨_, rfl⟩ | ⟨_, rfl⟩ | ⟨_, rfl⟩ <;> assumption
+  · intro i j p q hi hj e
+    rcases hcases i p hi with ⟨_, rfl⟩ | ⟨_, rfl⟩ | ⟨_, rfl⟩ <;>
+      rcases hcases j q hj with ⟨_, rfl⟩ | ⟨_, rfl⟩ | ⟨_, rfl⟩ <;>
+      first | rfl | exact absurd e ‹_› | exact absurd e.symm ‹_›
+
+-- the hypotheses of `C42_files_closed` / `C42_form_closes_exactly_what_it_owns` hold for the
+-- top-level frame, for the frame of `a | form` and for the frame of `form | b`
+example : C42_PidsWF C42_st0 := C42_pidsWF_of_three (by decide) (by decide) (by decide) (by decide) (by decide) (by decide)
+example : C42_PidsWF C42_stPipeIn.1 := C42_pidsWF_of_three (by decide) (by decide) (by decide) (by decide) (by decide) (by decide)
+example : C42_ChanWF (C42_stPipeOut 5) := by
+  refine ⟨?_, ?_, C42_pidsWF_of_three (by decide) (by decide) (by decide) (by decide) (by decide) (by decide)⟩
+  · intro i f hf hc
+    have hi : i < 2 := (List.getElem?_eq_some_iff.mp hf).1
+    have : i = 0 ∨ i = 1 := by omega
+    rcases this with rfl | rfl
+    · simp [C42_stPipeOut, Fop.unowned] at hf; subst hf; cases hc
+    · exact ⟨_, 4, rfl, rfl, by simp [C42_stPipeOut]⟩
+  · intro i j fi fj pi pj hij hfi hci hfj hcj _ _
+    have hi : i < 2 := (List.getElem?_eq_some_iff.mp hfi).1
+    have hj : j < 2 := (List.getElem?_eq_some_iff.mp hfj).1
+    have h1 : ∀ k (f : Fop), k < 2 → (C42_stPipeOut 5).fops[k]? = some f → f.chan = true → k = 1 := by
+      intro k f hk hf hc
+      have : k = 0 ∨ k = 1 := by omega
+      rcases this with rfl | rfl
+      · simp [C42_stPipeOut, Fop.unowned] at hf; subst hf; cases hc
+      · rfl
+    exact absurd ((h1 i fi hi hfi hci).trans (h1 j fj hj hfj hcj).symm) hij
+/-- the owned channel really is closed by the loop when its port is redirected away, once -/
+example : ∃ s, execRedirs Cfg.fixed (C42_stPipeOut 5) C42_overridePipeOut = .ok s ∧ s.st.w.closedChans = [4] :=
+  ⟨_, rfl, rfl⟩
+/-- a pipeline form that owns its input pipe (file 3): after `<in` and the body, the pipe and the
+file opened by the redirection are closed, ports 0–2 of the surroundings are as they were -/
+example : ∃ o, runForm Cfg.fixed C42_stPipeIn.1 (some C42_stPipeIn.2) [⟨none, .read, .name "in"⟩] [.read none] = .ok o ∧
+    (fopAt C42_stPipeIn.1.fops 0).file = true ∧ o.st.w.hs.map (·.isOpen) = [true, true, true, false, false] :=
+  ⟨_, rfl, rfl, rfl⟩
 example : PortsInRange C42_st0 := by
   intro j q h hl hf
   have hj := lookup_lt hl
